@@ -34,6 +34,11 @@ pub struct Case {
     pub a: usize,
     pub b: usize,
     pub follow: bool,
+    /// how the behaviour reaches the walk: 0 = `WalkBehavior` struct, 1 = the `DepthBehavior`,
+    /// 2 = the specific `DepthMax` / `DepthMin` / `DepthMinMax`, 3 = the `LinkBehavior`, 4 = `()` /
+    /// plain `walk` (each only where it says the same thing; otherwise the struct is used)
+    #[serde(default)]
+    pub via: u8,
 }
 
 /// the behaviour a constructor yields and the effective (min, max) the documentation promises;
@@ -120,7 +125,7 @@ impl Property for C15 {
     fn rule(&self) -> String {
         "generated trees with symbolic links (to files, to directories, dangling, re-entrant to \
          parent / grand-parent / self) x Path::walk or globs (`**`, selective, invariant prefixes \
-         of 0-3 components, rooted) x depth behaviours built through every constructor with \
+         of 0-3 components, rooted) x depth behaviours built through every constructor (and handed to the walk as the struct or through each `Into<WalkBehavior>` conversion that expresses them) with \
          bounds 0..6 (including maximum < prefix length and minimum > tree height) x both link \
          behaviours; one evaluation = one walk compared with the depth-filtered reference \
          traversal under the same link policy (Ok multiset, error multiset by path, termination by \
@@ -146,7 +151,7 @@ impl Property for C15 {
         320
     }
     fn required_counters(&self) -> Vec<&'static str> {
-        vec!["walks", "read_target_with_directory_link", "reentrant_link_under_read_target", "dangling_link_under_read_target", "bounds_cut_tree", "max_below_prefix_length", "ctor_refused", "glob_walks", "path_walks", "rooted_walks"]
+        vec!["walks", "read_target_with_directory_link", "reentrant_link_under_read_target", "dangling_link_under_read_target", "bounds_cut_tree", "max_below_prefix_length", "ctor_refused", "glob_walks", "path_walks", "rooted_walks", "behaviour_via_conversion"]
     }
     fn decode(&self, t: &mut Tape) -> Case {
         let tree = gen_tree(t, &TreeCfg { links: true, ..TreeCfg::default() });
@@ -167,7 +172,7 @@ impl Property for C15 {
             Some((shape, g))
         };
         let ctor = t.pick(&[Ctor::Unbounded, Ctor::Max, Ctor::MinOrUnbounded, Ctor::DepthsOrMax, Ctor::Bounded, Ctor::BoundedAtVariance, Ctor::Max, Ctor::DepthsOrMax]);
-        Case { tree, base, glob, ctor, a: t.below(6), b: t.below(6), follow: t.chance(150) }
+        Case { tree, base, glob, ctor, a: t.below(6), b: t.below(6), follow: t.chance(150), via: t.below(5) as u8 }
     }
     fn directed(&self) -> Vec<Case> {
         let d = |p: &str| Node { path: p.into(), kind: Kind::Dir, unreadable: false };
@@ -180,6 +185,7 @@ impl Property for C15 {
             a: 1,
             b: 0,
             follow: false,
+            via: 0,
         }]
     }
     fn shrink(&self, c: &Case) -> Vec<Case> {
@@ -407,9 +413,46 @@ impl Property for C15 {
         }
         // actual
         let cap = 10 * reference.len() + 100;
-        let walked = guard(|| match &glob {
-            None => drain(start_given.walk_with_behavior(beh), cap),
-            Some((g, _, _)) => drain(g.walk_with_behavior(base_given.clone(), beh), cap),
+        // the same behaviour through every `Into<WalkBehavior>` conversion that can express it
+        let run = |b: WalkBehavior| match &glob {
+            None => drain(start_given.walk_with_behavior(b), cap),
+            Some((g, _, _)) => drain(g.walk_with_behavior(base_given.clone(), b), cap),
+        };
+        let default_link = !case.follow;
+        let unbounded = depth == DepthBehavior::Unbounded;
+        let walked = guard(|| match case.via {
+            1 if default_link => {
+                st.count("behaviour_via_conversion");
+                run(depth.into())
+            },
+            2 if default_link && !unbounded => {
+                st.count("behaviour_via_conversion");
+                match depth {
+                    DepthBehavior::Max(m) => run(m.into()),
+                    DepthBehavior::Min(m) => run(m.into()),
+                    DepthBehavior::MinMax(m) => run(m.into()),
+                    DepthBehavior::Unbounded => run(beh),
+                }
+            },
+            3 if unbounded => {
+                st.count("behaviour_via_conversion");
+                run(beh.link.into())
+            },
+            4 if unbounded && default_link => {
+                st.count("behaviour_via_conversion");
+                match &glob {
+                    None => drain(start_given.walk(), cap),
+                    Some((g, _, _)) => {
+                        if case.a % 2 == 0 {
+                            drain(g.walk(base_given.clone()), cap)
+                        }
+                        else {
+                            drain(g.walk_with_behavior(base_given.clone(), ()), cap)
+                        }
+                    },
+                }
+            },
+            _ => run(beh),
         });
         let (seen, capped) = match walked {
             Ok(x) => x,
